@@ -22,11 +22,57 @@ import (
 	"verif/harness/hx"
 )
 
+// Recursive fixture types (reflect.StructOf cannot build self-referential types). In type expressions
+// they appear as <Name><d>: d is the unfolding depth the model uses (the Go type is the same for all d).
+type Tree struct {
+	V    uint64
+	Kids []Tree
+}
+type TreeT struct {
+	V    uint64
+	Kids []TreeT `rlp:"tail"`
+}
+type TreeP struct {
+	V    uint64
+	Kids []*TreeP
+}
+type Link struct {
+	V    uint64
+	Next *Link `rlp:"nil"`
+}
+type MA struct {
+	V uint64
+	B []MB
+}
+type MB struct {
+	S []byte
+	A []MA
+}
+
+var recTypes = map[string]reflect.Type{
+	"Tree": reflect.TypeOf(Tree{}), "TreeT": reflect.TypeOf(TreeT{}), "TreeP": reflect.TypeOf(TreeP{}),
+	"Link": reflect.TypeOf(Link{}), "MA": reflect.TypeOf(MA{}), "MB": reflect.TypeOf(MB{}),
+}
+
+// recName splits "Tree12" into ("Tree", true); longest name first.
+func recName(t string) (string, bool) {
+	for _, n := range []string{"TreeT", "TreeP", "Tree", "Link", "MA", "MB"} {
+		if strings.HasPrefix(t, n) {
+			if _, err := strconv.Atoi(t[len(n):]); err == nil {
+				return n, true
+			}
+		}
+	}
+	return "", false
+}
+
 type Ty struct {
-	K  string // u8 u16 u32 u64 big bool str bytes raw any a S A P R
-	N  int    // a<n>, A<n>
-	E  *Ty    // S A P
-	Fs []Field
+	K    string // u8 u16 u32 u64 big bool str bytes raw any a S A P R rec
+	Name string // rec: fixture type name
+	Tok  string // rec: the token as written (name + depth)
+	N    int    // a<n>, A<n>
+	E    *Ty    // S A P
+	Fs   []Field
 }
 
 type Field struct {
@@ -36,6 +82,8 @@ type Field struct {
 
 func (t *Ty) String() string {
 	switch t.K {
+	case "rec":
+		return t.Tok
 	case "a":
 		return "a" + strconv.Itoa(t.N)
 	case "S", "P":
@@ -60,6 +108,9 @@ func parseTy(toks []string) (*Ty, []string, error) {
 		return nil, nil, fmt.Errorf("type: out of tokens")
 	}
 	t, rest := toks[0], toks[1:]
+	if n, ok := recName(t); ok {
+		return &Ty{K: "rec", Name: n, Tok: t}, rest, nil
+	}
 	switch t {
 	case "u8", "u16", "u32", "u64", "big", "bool", "str", "bytes", "raw", "any":
 		return &Ty{K: t}, rest, nil
@@ -162,6 +213,8 @@ func goTypeL(t *Ty) reflect.Type {
 	}
 	var rt reflect.Type
 	switch t.K {
+	case "rec":
+		return recTypes[t.Name]
 	case "u8":
 		rt = reflect.TypeOf(uint8(0))
 	case "u16":
